@@ -10,7 +10,8 @@
 (* A block is a sequence of transactions, each with an auth kind ("b" = a     *)
 (* kind that has a batch verifier, "u" = verified one by one) and a boolean   *)
 (* saying whether its signature verifies.  A task is the set of transaction   *)
-(* positions it verifies; running it succeeds iff all of them are valid.      *)
+(* positions it verifies; running it succeeds iff it is non-empty and all of  *)
+(* them are valid (an empty ed25519consensus batch verifies to false).        *)
 (* Processes: main (Add loop, then the deferred Done goroutine), the batch    *)
 (* worker, the pool's queue goroutine + workers.                              *)
 EXTENDS AuthRules
@@ -18,6 +19,9 @@ EXTENDS AuthRules
 CONSTANTS MaxTx,       \* blocks of 0..MaxTx transactions
           MaxCores,    \* 1..MaxCores workers
           MinBatch,    \* ed25519.MinBatchSize (4 in the code, scaled in the design run)
+          ItemCap,     \* capacity of the batch worker's item channel (authWorkerBacklog = 16384 in the code)
+          BlockingAdd, \* TRUE = as coded: AuthBatch.Add blocks on a full item channel; FALSE = sensitivity variant: a full
+                       \* channel makes Add verify the signature directly on the job (select/default)
           FlushRemainder \* TRUE = as coded; FALSE = sensitivity variant: Done() drops the unfinished batch
 
 VARIABLES kinds, valid, cores,       \* the block and the configuration (chosen in Init)
@@ -65,10 +69,12 @@ Go(t) == /\ tasks' = Append(tasks, t)
 (* ---- main: batchVerifier.Add for the next transaction *)
 MainAdd ==
   /\ next <= N
-  /\ next' = next + 1
-  /\ IF kinds[next] = "u"
-       THEN Go({next}) /\ UNCHANGED items                       \* no batch verifier: auth.Verify goes straight to the job
-       ELSE items' = Append(items, next) /\ UNCHANGED <<tasks, dispatched>>
+  /\ LET full == kinds[next] = "b" /\ Len(items) >= ItemCap IN
+     /\ (BlockingAdd => ~full)                                       \* bv.items <- object blocks while the channel is full
+     /\ next' = next + 1
+     /\ IF kinds[next] = "u" \/ full
+          THEN Go({next}) /\ UNCHANGED items                       \* no batch verifier (or, variant, full channel): straight to the job
+          ELSE items' = Append(items, next) /\ UNCHANGED <<tasks, dispatched>>
   /\ UNCHANGED <<kinds, valid, cores, itemsClosed, cur, counter, totalCounter, bwDone, donePc, tasksClosed, holding, phase, err,
                  result, ran>>
 
@@ -125,7 +131,7 @@ Check(w) ==                                           \* read w.err under the re
 Finish(w) ==                                          \* j() returned; record the first error; sg.Done()
   /\ phase[w] = "running"
   /\ ran' = ran \cup holding[w]
-  /\ err' = (err \/ \E i \in holding[w] : ~valid[i])
+  /\ err' = (err \/ holding[w] = {} \/ \E i \in holding[w] : ~valid[i])    \* an EMPTY ed25519 batch verifies to false
   /\ phase' = [phase EXCEPT ![w] = "idle"] /\ holding' = [holding EXCEPT ![w] = {}]
   /\ UNCHANGED <<kinds, valid, cores, next, items, itemsClosed, cur, counter, totalCounter, bwDone, donePc, tasks, tasksClosed,
                  result, dispatched>>
